@@ -20,7 +20,7 @@ RULE = ('amounts n in [0, 21*10^14] smallest units: uniform, >=10^15, top-of-ran
         'network argument, trailing zeros), format (Value.from_satoshi(n, network).str(den, decimals) must denote n '
         'and parse back to n), numeric (Value(number, denominator).value_sat, from_satoshi(n, denominator=den)), '
         'output (Output(value=text|Value|int), Transaction.add_output, amount bytes of raw()). Sub-unit denominators '
-        '(n, msat, usat) only on whole smallest units. Non-trivial = n >= 10^12 or a denominator other than "" and '
+        '(n, msat, usat) only on whole smallest units. [Value histories: conversions interleaved with += / -= / + / - on one object against an integer model] Non-trivial = n >= 10^12 or a denominator other than "" and '
         '"sat"; distinct by (path, api, n, denominator, currency code).')
 ASSUMPTIONS = ['ref/money.UNIT_EXP gives the meaning of each denominator symbol (SI prefixes; sat=1e-8, finney=1e-7, '
                'msat=1e-11, usat=1e-14)',
@@ -442,8 +442,61 @@ def run_block(ctx, case, record=False):
         ctx.count(max(0, done - 1))
 
 
+def check_vhistory(ctx, case):
+    """One Value object over time: conversions to the smallest unit interleaved with += / -= / + / -. Every conversion
+    must give the integer the running amount has NOW (model: Python ints). Amounts stay below 10^14 units, where the
+    float the library keeps internally cannot be off by half a unit. case: kind=vhistory, net, n0, ops [{'op': 'sat' |
+    'bytes' | 'index' | 'output' | 'iadd' | 'isub' | 'add' | 'sub', 'n': units}]"""
+    values, tx, _ = _lib()
+    net = case['net']
+    try:
+        v = values.Value.from_satoshi(case['n0'], network=net)
+    except Exception as e:
+        raise Discrepancy('vhistory.raises', 'from_satoshi(%d, network=%r) raised %r' % (case['n0'], net, e), case)
+    cur = case['n0']
+    done = []
+    for op in case['ops']:
+        name, n = op['op'], op.get('n', 0)
+        try:
+            if name in ('iadd', 'add'):
+                o = values.Value.from_satoshi(n, network=net)
+                if name == 'iadd':
+                    v += o
+                else:
+                    v = v + o
+                cur += n
+                done.append('%s %d' % (name, n))
+                continue
+            if name in ('isub', 'sub'):
+                if n > cur:
+                    continue
+                o = values.Value.from_satoshi(n, network=net)
+                if name == 'isub':
+                    v -= o
+                else:
+                    v = v - o
+                cur -= n
+                done.append('%s %d' % (name, n))
+                continue
+            if name == 'sat':
+                got = v.value_sat
+            elif name == 'bytes':
+                got = int.from_bytes(v.to_bytes(), 'little')
+            elif name == 'index':
+                got = v.__index__()
+            else:
+                got = tx.Output(v, lock_script=bytes.fromhex('76a914' + PKH + '88ac'), network=net).value
+        except Exception as e:
+            raise Discrepancy('vhistory.raises', '%s after %r raised %r' % (name, done, e), case)
+        if got != cur:
+            raise Discrepancy('vhistory.stale:%s' % name, 'Value of %d units on %s after %r: %s gives %r, the amount is '
+                              '%d' % (case['n0'], net, done, name, got, cur), case)
+        done.append(name)
+        ctx.count()
+
+
 DISPATCH = {'parse': check_parse, 'format': check_format, 'numeric': check_numeric, 'output': check_output,
-            'table': check_table}
+            'table': check_table, 'vhistory': check_vhistory}
 
 
 def replay(ctx, case):
@@ -711,3 +764,20 @@ def run(ctx):
             ctx.sample(case)
         check_output(ctx, case)
     ctx.run_given('output', output_strategy(), prop_output, ctx.scale(300, 12000))
+
+    # one Value object over time (memoised conversions, in-place arithmetic)
+    from hypothesis import strategies as hst
+    amt = hst.one_of(hst.sampled_from([0, 1, 546, 10 ** 8, 15 * 10 ** 7, 10 ** 13]), hst.integers(0, 10 ** 13))
+    vop = hst.one_of(hst.sampled_from([{'op': 'sat'}, {'op': 'sat'}, {'op': 'bytes'}, {'op': 'index'}, {'op': 'output'}]),
+                     hst.fixed_dictionaries({'op': hst.sampled_from(['iadd', 'isub', 'iadd', 'add', 'sub']), 'n': amt}))
+    vhist = hst.fixed_dictionaries({'kind': hst.just('vhistory'), 'net': hst.sampled_from(sorted(_nets())), 'n0': amt,
+                                    'ops': hst.lists(vop, min_size=3, max_size=8)})
+
+    def prop_vhist(case):
+        names = [o['op'] for o in case['ops']]
+        reads = [i for i, x in enumerate(names) if x in ('sat', 'bytes', 'index', 'output')]
+        if reads and any(x in ('iadd', 'isub') for x in names[reads[0]:]):
+            ctx.nt(('vhistory', case['net'], case['n0'], str(case['ops'])))
+            ctx.klass('vhistory.read_then_inplace_change')
+        check_vhistory(ctx, case)
+    ctx.run_given('vhistory', vhist, prop_vhist, ctx.scale(150, 5000))
